@@ -145,6 +145,7 @@ struct ZFileOpts {
     // 1-in-big_rate files get one chunk that crosses the library's internal block sizes (32 KiB copy/scan/read buffer; with
     // big_huge also zstd's 128 KiB block): stored sizes of 32768+-2, 33000..70000, 131072+-2, 132000..200000 bytes.  0 = never.
     unsigned big_rate = 0; bool big_huge = false;
+    bool allow_empty_stored = true;     // reference-written zstd files may hold stored-but-empty chunks
 };
 static inline Bytes chunk_content(Ctx &c, size_t maxlen) {
     uint64_t k = c.draw(5); size_t n = 1 + (k == 0 ? c.draw(3) : k <= 2 ? c.draw(std::min<size_t>(maxlen, 200) - 1) : c.draw(maxlen - 1));
@@ -157,13 +158,15 @@ static inline Bytes chunk_content(Ctx &c, size_t maxlen) {
     }
     return b;
 }
-struct ZParams { int comp = ZCK_COMP_ZSTD; Bytes dict; std::vector<Bytes> chunks; int full_hash = -1, chunk_hash = -1; bool uncomp = false; int level = -1; bool by_ref = false; };
-static inline ZFile zfile_build(Ctx &c, const ZParams &q) {
+struct ZParams { int comp = ZCK_COMP_ZSTD; Bytes dict; std::vector<Bytes> chunks; int full_hash = -1, chunk_hash = -1; bool uncomp = false; int level = -1; bool by_ref = false; bool store_empty = false; };
+static inline ZFile zfile_build(Ctx &c, const ZParams &q0) {
+    ZParams q = q0;      // empty data chunks exist only as stored-but-empty chunks of reference-written zstd files; a variant derived for the library's writer drops them
+    if (!(q.by_ref && q.store_empty && q.comp == ZCK_COMP_ZSTD)) { q.store_empty = false; q.chunks.erase(std::remove_if(q.chunks.begin(), q.chunks.end(), [](const Bytes &b) { return b.empty(); }), q.chunks.end()); }
     ZFile z; z.comp = q.comp; z.by_ref = q.by_ref;
     for (auto &ch : q.chunks) z.D.insert(z.D.end(), ch.begin(), ch.end());
     if (q.by_ref) {
         ref::WriteSpec w; w.comp = q.comp; w.hash_type = q.full_hash < 0 ? 1 : q.full_hash; w.chunk_hash_type = q.chunk_hash < 0 ? 3 : q.chunk_hash;
-        w.uncomp_flag = q.uncomp; w.dict = q.dict; w.chunks = q.chunks; w.level = q.level < 0 ? 3 : q.level;
+        w.uncomp_flag = q.uncomp; w.dict = q.dict; w.chunks = q.chunks; w.level = q.level < 0 ? 3 : q.level; w.store_empty = q.store_empty;
         z.file = ref::write(w).file;
     } else {
         lib::WCfg w; w.comp = q.comp; w.full_hash = q.full_hash; w.chunk_hash = q.chunk_hash; w.uncomp = q.uncomp; w.dict = q.dict; w.manual = true; w.level = q.comp == ZCK_COMP_ZSTD ? q.level : -1;
@@ -181,6 +184,7 @@ static inline ZFile zfile_build(Ctx &c, const ZParams &q) {
     std::ostringstream d; d << (z.by_ref ? "ref-written" : "lib-written") << " comp=" << (z.comp == ZCK_COMP_ZSTD ? "zstd" : "none") << " dict=" << q.dict.size()
       << " fullhash=" << z.h.hash_type << " chunkhash=" << z.h.chunk_hash_type << (q.uncomp ? " uncomp-flag" : "") << " chunks=[";
     for (size_t i = 0; i < q.chunks.size() && i < 16; i++) d << (i ? "," : "") << q.chunks[i].size() << ">" << z.h.entries[i + 1].comp_len;
+    if (q.store_empty) d << " (stored-but-empty chunks)";
     if (q.chunks.size() > 16) d << ",...(" << q.chunks.size() << ")";
     d << "]"; z.desc = d.str();
     return z;
@@ -212,6 +216,9 @@ static inline ZParams zparams(Ctx &c, const ZFileOpts &o = ZFileOpts()) {
                for (size_t i = 0; i < head && i < n; i++) b[i] = (uint8_t)(1 + r.below(255)); for (size_t i = 0; i < tail && i < n; i++) b[n - 1 - i] = (uint8_t)(1 + r.below(255)); }
         q.chunks[idx] = b; if (q.level > 3) q.level = 3;
     }
+    // a chunk that stores bytes but holds no data (the zstd frame of nothing: stored size 9..13, size 0) - legal, read back as nothing,
+    // never produced by the library's writer, so only the reference writer makes it
+    if (c.gver >= 4 && o.allow_empty_stored && q.by_ref && q.comp == ZCK_COMP_ZSTD && c.rarely(3)) { size_t at = c.draw(q.chunks.size()); q.chunks.insert(q.chunks.begin() + at, Bytes()); if (c.rarely(3)) q.chunks.insert(q.chunks.begin() + c.draw(q.chunks.size()), Bytes()); q.store_empty = true; }
     // a dictionary larger than the library's 32 KiB block buffers (the dictionary is chunk 0 and is read, copied and extracted by its own code paths)
     if (c.gver >= 4 && o.big_rate && o.allow_dict && c.rarely(o.big_rate)) {
         size_t n = c.boolean() ? 32766 + c.draw(4) : 33000 + c.draw(o.big_huge ? 110000 : 40000); q.dict.resize(n); uint64_t seed = c.draw(0xffff);
